@@ -12,8 +12,12 @@ res="$tag:"
 git apply $d/patch.diff || { echo "$res patch does not apply"; exit 1; }
 cargo build --offline -q 2>/dev/null && res="$res build=ok" || res="$res build=FAIL"
 cargo build --offline -q --features verif-hooks 2>/dev/null && res="$res build_hooks=ok" || res="$res build_hooks=FAIL"
-t=$(cargo test --offline --lib 2>&1 | grep "^test result" | head -1)
-if ! echo "$t" | grep -q "121 passed; 0 failed"; then t2=$(cargo test --offline --lib 2>&1 | grep "^test result" | head -1); t="$t | retry: $t2"; fi
+runtests() { cargo test --offline --lib 2>&1 | grep -E "^test result|^test .*FAILED" | tr '\n' ' '; }
+t=$(runtests)
+for k in 1 2 3; do
+  if echo "$t" | grep -q "121 passed; 0 failed"; then break; fi
+  sleep $((RANDOM % 7 + 2)); t="$t | retry: $(runtests)"
+done
 res="$res tests=[$t]"
 adddemo() {
   if [ -f $d/demo.patch ]; then git apply $d/demo.patch; else mkdir -p tests; cp $d/demo.rs tests/demo_$tag.rs; fi
